@@ -365,6 +365,12 @@ func checkC08(c *Ctx, e *Env) {
 	m, r := e1Handlers(c, e)
 	p := m.P
 	noteUndecided(c, m, r, "C08.E1")
+	// the handler acts on the request as sent: no in-place re-ordering / overwriting of the request's own slices
+	for _, mod := range []string{"x/ecocredit", "x/data"} {
+		mm := e.Model(mod)
+		g := NewGraph(mm.P)
+		ruleRequestNotReordered(c, mm, g, g.Closure(append(mm.ConsensusRoots(), msgValidationRoots(mm)...)), "C08.REQ")
+	}
 	importObligations(c, e, checkC14, "C14", "C08.ROLEKEY", "role rows#keyed-by-their-entity", "the issuer role is the existence of a ClassIssuer row under the class's key: a role row written under another entity's key grants the role there", func(o *Oblig) bool {
 		return o.Rule == "C14.FK" && strings.Contains(o.Construct, "#ClassIssuer.")
 	})
@@ -549,6 +555,7 @@ func checkC03(c *Ctx, e *Env) {
 	p := m.P
 	noteUndecided(c, m, r, "C03.E1")
 	ruleAskDenom(c, m, r)
+	importObligations(c, e, checkC12, "C12", "C03.EXPIRY", "fills#only-of-live-orders", "the fill exception covers the account's own LIVE sell order: the begin-block prune removes exactly the orders whose expiration is at or before the block time (range bounds from the full block time, nanoseconds included), so an expired order can never be filled", func(o *Oblig) bool { return o.Rule == "C12.RANGE" || o.Rule == "C12.CHAIN" })
 	importObligations(c, e, checkC07, "C07", "C03.FILLPAY", "fills#paid-for-what-is-taken", "the one case in which an account loses credits without signing is a fill of its own sell order, and then it is paid quantity × ask for exactly the quantity taken from its escrow", func(o *Oblig) bool { return o.Rule == "C07.COINS" || o.Rule == "C07.CREDITS" })
 	nDebit, nBank := 0, 0
 	for _, h := range r.Handlers {
